@@ -5,7 +5,7 @@ from oracle_util import *  # noqa
 from protocol import from_real, to_real
 
 ID = "C05"
-LEAN_MODULE = ["SCoda.Props.C05", "SCoda.Props.C05b"]
+LEAN_MODULE = ["SCoda.Props.C05", "SCoda.Props.C05b", "SCoda.Props.Strong589Q", "SCoda.Props.WrapTie"]
 LEVEL = "proof"
 CLAUSES = [
     ("every remaining event lies on a tick divisible by at least one step size; quantise never fails on well-formed input",
@@ -15,6 +15,12 @@ CLAUSES = [
     ("notes pair one-to-one per (channel, pitch) — the output is well-formed and time-sorted, so same-key notes do not overlap — with positive duration, "
      "including the same pitch on several channels", ["SCoda.C05.wf_out", "SCoda.C05.positive_durations", "SCoda.C05.sorted_out"]),
     ("non-note events are all kept", ["SCoda.C05.others_kept"]),
+    ("NO DUPLICATION (audit A14): the output is, up to order, a sublist of the input with only `time` changed, each by at most the largest step — so no message is invented "
+     "or doubled (length, note count and multiset bounds follow); notes of one channel and pitch do not overlap (`notesOf` pairwise: off <= next on); well-formedness of "
+     "the input is necessary (for [on@0, on@8] a note-off is fabricated, model and implementation alike)",
+     ["SCoda.Strong589.notes_injective", "SCoda.Strong589.length_le", "SCoda.Strong589.note_count_le", "SCoda.Strong589.multiset_le", "SCoda.Strong589.no_overlap", "SCoda.Strong589.dropped_of_lt'"]),
+    ("TIE BY TRANSLATION: Sequence.quantise / quantise_and_normalise (absolute view, quantise, invalidate; the three calls in order) as re-translated from the source equal the "
+     "wrapper model; AbsoluteSequence.quantise itself stays tied by correspondence", ["SCoda.WrapTie.quantise_eq", "SCoda.WrapTie.quantiseAndNormalise_eq"]),
     ("an isolated note (of positive length) survives at the nearest grid position of its onset with a strictly later end whenever some grid position of "
      "its end lies after its quantised start, and is dropped only otherwise (the statement that does not tie the note-off to its note-on is refuted)",
      ["SCoda.C05.survives_of_lt", "SCoda.C05.dropped_of_lt", "SCoda.C05.survives_partial", "SCoda.C05.dropped_partial",
@@ -53,6 +59,21 @@ def o_quantise(inp):
     orig_time = {id(m): m.time for m in real}
     from scoda.sequences.absolute_sequence import AbsoluteSequence
     seq = AbsoluteSequence(messages=real)
+    if inp.get("rerun"):
+        # the same object was quantised before (same step list) and its ticks were then edited in place, as the iterators allow:
+        # judged against the content it has now
+        try:
+            seq.quantise(list(steps))
+        except Exception:
+            return [("~skip:first-quantise-raised", "")]
+        for m in seq._messages:
+            m.time += inp["rerun"]
+        real = list(seq._messages)
+        a = [from_real(m) for m in real]
+        pre, _ = abs_timed(a)
+        if wf_violations(pre) or any(on >= off for (_, _, on, off, _) in notes_of(pre)):
+            return [("~skip:not-well-formed-sorted", "")]
+        orig_time = {id(m): m.time for m in real}
     try:
         seq.quantise(list(steps))
     except Exception as e:
@@ -125,6 +146,9 @@ def generate(ctx):
         if len({(n[1]) for n in notes}) < len({(n[0], n[1]) for n in notes}):
             ctx.count("same-pitch-on-two-channels")
         ctx.check("quantise", {"abs": a, "steps": steps})
+        if i % 3 == 0:
+            ctx.count("object-with-a-past")
+            ctx.check("quantise", {"abs": a, "steps": steps, "rerun": rng.choice([1, 1, 2, 5])})
         ctx.corr("quantise", P.op_quantise(steps, a))
         ctx.sample({"abs": a, "steps": steps})
     if ctx.thorough:
